@@ -482,27 +482,12 @@ func runStack(ops []hOp, gen func(exec func(hOp) (*uint64, string)) []hOp) *stac
 	sr.Logs = logs
 	sess := st.PG.NewSession()
 	defer sess.Close()
-	res, err := sess.Exec(`select id, type, memento, date, idempotency_key, schema_version, hash from logs where ledger = 'l1' order by id`)
+	rows, err := readHashRows(sess)
 	if err != nil {
 		sr.Err = "raw logs: " + err.Error()
 		return sr
 	}
-	for _, r := range res.Rows {
-		row := hRow{ID: atoi(pgsemText(r[0])), Type: pgsemText(r[1]), DateUS: tsText(pgsemText(r[3]))}
-		if b, ok := r[2].([]byte); ok {
-			row.Memento = b
-		}
-		if r[4] != nil {
-			row.IK = pgsemText(r[4])
-		}
-		if r[5] != nil {
-			row.SV = pgsemText(r[5])
-		}
-		if b, ok := r[6].([]byte); ok {
-			row.Hash = b
-		}
-		sr.Rows = append(sr.Rows, row)
-	}
+	sr.Rows = rows
 	return sr
 }
 
@@ -687,10 +672,47 @@ func monC10Stack(sr *stackRun, exportedOnly bool) []string {
 // the log with the next smaller id and to no other; ids strictly increase; (b) recomputation from the exported logs
 // (ComputeHash, hash cleared) reproduces the stored hashes; (b) inherits C10's divergence classes, tagged the same way.
 func monC09Stack(sr *stackRun) []string {
-	var out []string
 	if sr.Err != "" {
 		return []string{"[unexplained] reads failed: " + sr.Err}
 	}
+	out := monC09Rows(sr.Rows)
+	for _, m := range monC10Stack(sr, true) {
+		out = append(out, "recompute: "+m)
+	}
+	return out
+}
+
+// readHashRows: the raw logs rows of ledger l1 in id order
+func readHashRows(sess *pgsem.Session) ([]hRow, error) {
+	res, err := sess.Exec(`select id, type, memento, date, idempotency_key, schema_version, hash from logs where ledger = 'l1' order by id`)
+	if err != nil {
+		return nil, err
+	}
+	var rows []hRow
+	for _, r := range res.Rows {
+		row := hRow{ID: atoi(pgsemText(r[0])), Type: pgsemText(r[1]), DateUS: tsText(pgsemText(r[3]))}
+		if b, ok := r[2].([]byte); ok {
+			row.Memento = b
+		}
+		if r[4] != nil {
+			row.IK = pgsemText(r[4])
+		}
+		if r[5] != nil {
+			row.SV = pgsemText(r[5])
+		}
+		if b, ok := r[6].([]byte); ok {
+			row.Hash = b
+		}
+		rows = append(rows, row)
+	}
+	return rows, nil
+}
+
+// monC09Rows: the chain is linear in id order by the trigger's rule (no two logs chain from the same predecessor, every
+// log chains from the log with the next smaller id)
+func monC09Rows(rows []hRow) []string {
+	var out []string
+	sr := &stackRun{Rows: rows}
 	for i, row := range sr.Rows {
 		if i > 0 && sr.Rows[i-1].ID >= row.ID {
 			out = append(out, fmt.Sprintf("[ids] log ids not increasing: %d then %d", sr.Rows[i-1].ID, row.ID))
@@ -720,9 +742,6 @@ func monC09Stack(sr *stackRun) []string {
 		} else {
 			out = append(out, fmt.Sprintf("[not-chain-hash] log %d: the stored hash %x is not the documented chain hash (the trigger's rule of migration 37) over any stored predecessor", row.ID, row.Hash))
 		}
-	}
-	for _, m := range monC10Stack(sr, true) {
-		out = append(out, "recompute: "+m)
 	}
 	return out
 }
